@@ -160,6 +160,7 @@ var ocspAlphabet = []string{
 	"good-unrelated-key", "good-embedded-foreign",
 	"good-expired", "good-no-nextupdate", "revoked-expired", "good-thisupdate-future",
 	"good-other-serial",
+	"revoked-at-after-signing", "revoked-at-after-signing-inv-malformed", "revoked-at-after-signing-inv-before", "revoked-at-equal-signing",
 	"revoked-inv-before", "revoked-inv-equal", "revoked-inv-after", "revoked-inv-malformed", "revoked-inv-trailing",
 	"good-inv-after", "unknown-inv-after", "revoked-delegate-noeku-inv-after",
 	"good-critext", "good-nocheck",
@@ -168,7 +169,7 @@ var ocspAlphabet = []string{
 }
 
 // representative classes for the all-sequences sweep of the quick tier
-var ocspCore = []string{"good", "revoked", "unknown", "good-delegate-eku", "good-delegate-noeku", "good-self-claims-issuer-id",
+var ocspCore = []string{"good", "revoked", "revoked-at-after-signing", "unknown", "good-delegate-eku", "good-delegate-noeku", "good-self-claims-issuer-id",
 	"good-expired", "revoked-inv-after", "err-trylater", "http-500", "transport-error", "garbage"}
 
 func (c *ocspCtx) behaviour(label string) *httpBehaviour {
@@ -229,6 +230,22 @@ func (c *ocspCtx) behaviour(label string) *httpBehaviour {
 		spec.ThisUpdate = c.now.Add(30 * time.Minute)
 	case "good-other-serial":
 		spec.Serial = big.NewInt(424242)
+	case "revoked-at-after-signing":
+		// revoked only after the signing time, and the answer carries no invalidity date: still Revoked
+		t := stRef.Add(10 * time.Minute)
+		spec.RevokedAt = &t
+	case "revoked-at-equal-signing":
+		t := stRef.Truncate(time.Second)
+		spec.RevokedAt = &t
+	case "revoked-at-after-signing-inv-malformed":
+		t := stRef.Add(10 * time.Minute)
+		spec.RevokedAt = &t
+		spec.InvDate, spec.InvBad = &t, "malformed"
+	case "revoked-at-after-signing-inv-before":
+		t := stRef.Add(10 * time.Minute)
+		spec.RevokedAt = &t
+		i := stRef.Add(-time.Hour)
+		spec.InvDate = &i
 	case "revoked-inv-before":
 		t := stRef.Add(-time.Hour)
 		spec.InvDate = &t
